@@ -80,16 +80,45 @@ func TestVerifLineWriter(t *testing.T) {
 		for round := 0; round < 2; round++ {
 			stream, chunks := gen()
 			rec.lines = nil
+			// how the producer owns the bytes it hands over (io.Writer: "Write must not modify the slice data, even
+			// temporarily. Implementations must not retain p."): a fresh slice per write; ONE buffer reused for every
+			// write (what io.Copy does for a child's pipe); the same, overwritten as soon as Write has returned; windows
+			// of one backing array whose capacity reaches over the bytes that follow
+			style := (i + round) % 4
+			buf := make([]byte, 16)
+			backing := append([]byte(strings.Join(chunks, "")), "0123456789abcdef"...)
+			orig := string(backing)
+			off := 0
 			for _, c := range chunks {
-				if n, err := lw.Write([]byte(c)); n != len(c) || err != nil {
+				var p []byte
+				switch style {
+				case 0:
+					p = []byte(c)
+				case 1, 2:
+					copy(buf, c)
+					p = buf[:len(c)]
+				case 3:
+					p = backing[off : off+len(c)]
+					off += len(c)
+				}
+				if n, err := lw.Write(p); n != len(c) || err != nil {
 					w.WriteString("ORACLE\tshort-write\n")
+				}
+				if style == 2 {
+					for j := range buf {
+						buf[j] = 'Z'
+					}
 				}
 			}
 			lw.Flush()
 			got := append([]string{}, rec.lines...)
 			want := lwExpected(stream)
+			styles := []string{"a fresh slice per write", "one buffer reused for every write", "one buffer, overwritten after each write", "windows of one backing array"}
 			if strings.Join(got, "\x00") != strings.Join(want, "\x00") || len(got) != len(want) {
-				w.WriteString("ORACLE\tC18 lineWriter delivered " + strconv.Quote(strings.Join(got, "|")) + " for chunks " + strconv.Quote(strings.Join(chunks, "|")) + " (round " + strconv.Itoa(round) + ")\n")
+				w.WriteString("ORACLE\tC18 lineWriter delivered " + strconv.Quote(strings.Join(got, "|")) + " for chunks " + strconv.Quote(strings.Join(chunks, "|")) + " (round " + strconv.Itoa(round) + ", producer hands over " + styles[style] + ")\n")
+			}
+			if style == 3 && string(backing) != orig {
+				w.WriteString("ORACLE\tC18 lineWriter modified the producer's bytes: " + strconv.Quote(orig) + " became " + strconv.Quote(string(backing)) + " after chunks " + strconv.Quote(strings.Join(chunks, "|")) + "\n")
 			}
 			rounds = append(rounds, lwHexList(chunks)+"\t"+lwHexList(got))
 		}
